@@ -11,7 +11,7 @@ import ast
 import dataclasses
 
 from ..astutil import AnalysisError, src
-from ..facts import Fact, flatten_or, path_facts, step_facts
+from ..facts import Fact, flatten_or, last_cond_facts, path_facts, step_facts
 from ..model import FunctionInfo
 from ..paths import Path
 from ..props.common import Ctx, describe
@@ -127,10 +127,9 @@ def check_required(
                 if p.outcome != "raise":
                     continue
                 # the check must be the *deciding* (last) test before the raise
-                last = [s for s in p.steps if s.kind == "cond"]
-                if not last:
+                lf = flatten_or(last_cond_facts(p))
+                if not lf:
                     continue
-                lf = flatten_or(step_facts(last[-1]))
                 if not any(_matches(f, req, fi) and f.polarity != req.polarity for f in lf):
                     continue
                 found = True
